@@ -23,6 +23,13 @@ TRUSTED_BASE = [
     "connection upgrade after the upstream's answer (the upgrade REQUEST is modelled), RequestInfo resolution (the 'events' flag is an input of the model)",
 ]
 ASSUMPTIONS = [
+    "the observed step is the whole handler chain of cmd/kube-gateway/app (buildProxyHandlerChainFunc): panic recovery, cache "
+    "control, request info, termination metrics, extra request info, upstream info, WithTraceLog, pre-processing metrics, request "
+    "rate, request reader/writer wrapper, wait group, CORS, authentication, audit, impersonator, impersonation, dispatcher + "
+    "UpgradeAwareHandler + ReverseProxy + per-endpoint transport; hosts traced.test / tracedplain.test / gated.test / untraced.test "
+    "go through a second instance of that chain assembled with proxy tracing enabled (--enable-proxy-tracing), where WithTraceLog "
+    "wraps the request body of non-long-running requests to clusters whose feature gate Tracing is on; the model treats all "
+    "these filters as the identity on method, target, headers and body",
     "a response stream cut in the middle (net/http race between the server closing the request body and the outgoing "
     "transport's last read of it, seen only under CPU starvation) is re-sent by the rig up to 3 times; the last observation "
     "counts, so a reproducible cut is still reported; such retries are counted in the evidence (label rig:retried)",
@@ -40,7 +47,9 @@ ASSUMPTIONS = [
     "answered 400 by the Go server and only checked for not reaching the upstream",
 ]
 
-HOSTS = {"ok.test": "COk", "plain.test": "COk", "limited.test": "CLimited", "bucket.test": "CLimited", "disabled.test": "CNoEndpoint",
+TRACED_HOSTS = ["traced.test", "tracedplain.test", "gated.test", "untraced.test"]   # chain built with proxy tracing enabled
+HOSTS = {"ok.test": "COk", "plain.test": "COk", "traced.test": "COk", "tracedplain.test": "COk", "gated.test": "COk",
+         "untraced.test": "COk", "limited.test": "CLimited", "bucket.test": "CLimited", "disabled.test": "CNoEndpoint",
          "nohost.test": "CUnknown", "dead.test": "CDead"}
 EVENT_PATHS = [(b"/api/v1/namespaces/ns1/events", True), (b"/api/v1/events", True), (b"/api/v1/pods", False),
                (b"/apis/events.k8s.io/v1beta1/namespaces/n/events/e1", True), (b"/healthz", False),
@@ -118,6 +127,18 @@ def corpus():
                                          (b"Cache-Control", b"max-age=3"), (b"Date", b"Mon, 01 Jan 2001 00:00:00 GMT")],
                                    (70000, 5), b"text/plain"), tag="reply-headers"))
     c.append(L.mk_case(reply=reply(200, [], (3, 1)), tag="reply-no-cache-control"))
+    # witness of seeded change C04-g: with proxy tracing on (chain built with --enable-proxy-tracing, cluster gate
+    # Tracing=true) the request body passes through WithTraceLog's traceReader; net/http's server-side reader of a
+    # Content-Length body returns the LAST bytes together with io.EOF
+    for host in TRACED_HOSTS:
+        for n in (0, 1, 10, 4095, 4096, 4097, 65536):
+            c.append(L.mk_case(host=host, method="POST", target=b"/api/v1/namespaces/n/configmaps", body=(n, 7),
+                               headers=[(b"Content-Type", b"application/json")], reply=reply(201, [], (20, 2)), tag="traced-body-%d" % n))
+    c.append(L.mk_case(host="traced.test", method="PUT", target=b"/api/v1/namespaces/n/configmaps/c", body=(65536, 9), chunked=True,
+                       tag="traced-chunked"))
+    c.append(L.mk_case(host="traced.test", method="PATCH", target=b"/api/v1/namespaces/n/configmaps/c?watch=true", body=(100, 3),
+                       tag="traced-long-running"))
+    c.append(L.mk_case(host="traced.test", target=b"/api/v1/pods", headers=[(b"X-Debug-Trace-Log", b"1")], tag="traced-debug-log"))
     # connection upgrades: request line and headers as the upstream receives them
     up = [(b"Connection", b"Upgrade"), (b"Upgrade", b"SPDY/3.1")]
     c.append(L.mk_case(method="POST", target=b"/api/v1/namespaces/n/pods/p/exec?command=ls&command=-l&container=a%2Fb&x=%zz",
@@ -193,7 +214,7 @@ def rand_headers(rng):
 def rand_body(rng, method):
     if method == "HEAD":
         return (0, 0)
-    n = rng.choice([0, 0, 0, 1, 10, 1000, 4096, 32768, 65536, rng.randint(0, 65536)])
+    n = rng.choice([0, 0, 0, 1, 1, 10, 1000, 4095, 4096, 4097, 32768, 65536, rng.randint(0, 65536)])
     return (n, rng.randint(1, 1000))
 
 
@@ -222,6 +243,12 @@ def gen_case(rng):
         deny = [("users", b"", b"bob", b"")]
     if host == "ok.test" and rng.chance(1, 3):
         host = "plain.test"
+    elif host == "ok.test" and rng.chance(1, 2):
+        # through the chain instance assembled with --enable-proxy-tracing; feature gates of the cluster drawn from
+        # {Tracing=true, Tracing=true + another gate, another gate only, none}
+        host = rng.choice(TRACED_HOSTS + ["traced.test", "tracedplain.test"])
+        if rng.chance(1, 2):
+            method = rng.choice(["POST", "PUT", "PATCH"])
     if rng.chance(1, 9):
         # a connection upgrade (exec / attach / port-forward): every header is forwarded on this path
         # (a "Connection: close" of the client makes net/http's Request.Write emit one more "Connection: close"
@@ -346,6 +373,8 @@ def nontrivial_key(case, obs):
 
 def stats(case, obs):
     labs = ["method:" + case["method"], "cluster:" + cluster_of(case, obs)] + _features(case)
+    if case["host"] in TRACED_HOSTS:
+        labs.append("chain:tracing-enabled/" + case["host"])
     if case["host"] == "bucket.test":
         labs.append("bucket.test:" + ("admitted(refilled)" if cluster_of(case, obs) == "COk" else "limited"))
     n = case["body"]["len"]
